@@ -22,6 +22,10 @@ TCLASSES = [("ss", "u32", (1, 1)), ("sendonly", "core::cell::Cell<u32>", (1, 0))
 THANDLES = [("AnyVecRef", "AnyVecRef<'static, {t}, {m}>", "shared"), ("AnyVecMut", "AnyVecMut<'static, {t}, {m}>", "exclusive"),
             ("AnyVecTyped", "AnyVecTyped<'static, {t}, {m}>", "exclusive")]
 
+# results whose type cannot be named (`impl Trait` over a crate-private pointer type): probed on a value
+VHANDLES = [("TypedDrain", "tv.drain(..)", "exclusive"),
+            ("TypedSplice", "tv.splice(.., core::iter::empty::<{t}>())", "exclusive")]
+
 PRELUDE = r'''
 #![allow(unused, dead_code)]
 use any_vec::{AnyVec, AnyVecRef, AnyVecMut, AnyVecTyped, IterRef, IterMut};
@@ -42,6 +46,14 @@ macro_rules! is {
         <W<$t>>::V
     }};
 }
+// the same question about a value whose type has no name: the inherent method wins when the bound holds
+pub struct Wv<'x, T: ?Sized>(pub &'x T);
+pub trait NoV { fn s(&self) -> bool { false } fn y(&self) -> bool { false } }
+impl<'x, T: ?Sized> NoV for &Wv<'x, T> {}
+pub trait YesS { fn s(&self) -> bool { true } }
+impl<'x, T: ?Sized + Send> YesS for Wv<'x, T> {}
+pub trait YesY { fn y(&self) -> bool { true } }
+impl<'x, T: ?Sized + Sync> YesY for Wv<'x, T> {}
 pub struct SyncOnly(PhantomData<*const ()>);
 unsafe impl Sync for SyncOnly {}
 
@@ -82,6 +94,9 @@ def grid_program():
             for hn, ht, _ in THANDLES:
                 t = ht.format(t=tt, m=bt)
                 lines.append('    println!("T %s %s %s {} {}", is!(%s: Send) as u8, is!(%s: Sync) as u8);' % (tn, bn, hn, t, t))
+            for hn, expr, _ in VHANDLES:
+                lines.append('    { let mut v = AnyVec::<dyn None, %s>::new::<%s>(); let mut tv = v.downcast_mut::<%s>().unwrap(); let d = %s; '
+                             'println!("T %s %s %s {} {}", (&Wv(&d)).s() as u8, (&Wv(&d)).y() as u8); }' % (bt, tt, tt, expr.format(t=tt), tn, bn, hn))
     lines.append("}")
     return "\n".join(lines)
 
@@ -168,8 +183,10 @@ def run(tier, seed, replay):
         setbits = {n: b for n, _, b in SETS}; bkbits = {n: b for n, _, b in BACKENDS}; tbits = {n: b for n, _, b in TCLASSES}
         settype = {n: t for n, t, _ in SETS}; bktype = {n: t for n, t, _ in BACKENDS}; ttype = {n: t for n, t, _ in TCLASSES}
         vec = {}
-        hkind = {n: k for n, _, k in HANDLES}; hkind.update({n: k for n, _, k in THANDLES})
+        hkind = {n: k for n, _, k in HANDLES}; hkind.update({n: k for n, _, k in THANDLES}); hkind.update({n: k for n, _, k in VHANDLES})
         htype = {n: t for n, t, _ in HANDLES}; htype.update({n: t for n, t, _ in THANDLES})
+        htype.update({n: "the result of AnyVecTyped<'_, {t}, {m}>::" + e.split("tv.")[1].split("(")[0] + "(..)" for n, e, _ in VHANDLES})
+        vexpr = {n: e for n, e, _ in VHANDLES}
         parsed = [ln.split() for ln in out.splitlines() if ln.strip()]
         for f in parsed:
             if f[0] == "V": vec[(f[1], f[2])] = (int(f[3]), int(f[4]))
@@ -211,7 +228,12 @@ def run(tier, seed, replay):
                 if sd and hkind[hn] == "shared" and not vy: ok = False; why = "is Send although it is a shared view and the element type / backend is not Sync"
                 if sd and hkind[hn] == "exclusive" and not vs: ok = False; why = "is Send although the element type / backend is not Send"
                 if sy and not vy: ok = False; why = "is Sync although the element type / backend is not Sync"
-                if not ok:
+                if not ok and hn in vexpr:
+                    fails.append(("row:T:%s:%s:%s" % (hn, tn, bn), "%s %s" % (ty, why),
+                                  PRELUDE + "fn assert_send<T: Send>(_: &T) {}\nfn assert_sync<T: Sync>(_: &T) {}\nfn main() { let mut v = AnyVec::<dyn None, %s>::new::<%s>(); "
+                                  "let mut tv = v.downcast_mut::<%s>().unwrap(); let d = %s; %s(&d); }\n// compiles, but must not: %s\n" % (
+                                      bktype[bn], ttype[tn], ttype[tn], vexpr[hn].format(t=ttype[tn]), "assert_send" if sd and "Send" in why else "assert_sync", why)))
+                elif not ok:
                     fails.append(("row:T:%s:%s:%s" % (hn, tn, bn), "%s %s" % (ty, why),
                                   PRELUDE + "fn assert_send<T: Send>() {}\nfn assert_sync<T: Sync>() {}\nfn main() { %s::<%s>(); }\n// compiles, but must not: %s\n" % (
                                       "assert_send" if sd and "Send" in why else "assert_sync", ty, why)))
@@ -243,7 +265,7 @@ def run(tier, seed, replay):
     S.evidence("C15", tier, seed, audit, {"grid_rows": rows, "compile_probes": len(cps) + len(aps), "model_vs_rustc_disagreements": disagreements,
                "exhaustive": True, "known_findings_hit": hits}, time.time() - t0, nviol,
                "the full grid: 8 constraint sets x 8 backends (Heap, Stack, StackN, Empty, user backends whose builder or Mem is !Send / !Sync) x "
-               "{AnyVec + 10 handle/iterator types} x {Send, Sync}; typed views x 4 element classes x 8 backends; every constructor x constraint set x "
+               "{AnyVec + 10 handle/iterator types} x {Send, Sync}; typed views and the iterators typed drain / splice return (probed on values) x 4 element classes x 8 backends; every constructor x constraint set x "
                "element class; clone()/capacity API availability; each row decided by rustc, checked against the property and against the Lean table",
                ["E send heap ElementRef <Send> <Sync>", "ctor AnyVec<dyn Send>::new::<E010>() must be rejected", "clone() on AnyVec<dyn Sync> must be rejected"],
                rows + len(cps) + len(aps), rows + len(cps) + len(aps))
